@@ -334,6 +334,21 @@ impl Property for C01 {
                 }
             }
         }
+        // (iii-b2) every length up to the dense bound: a carry through every word, a dense operand
+        for (t, n) in dense_lengths(tier) {
+            if !sh.mine() {
+                continue;
+            }
+            if !emit(t, &Bits::ones(n), Rhs::N(Nat::new(NatTy::U8, 1)), BinOp::Add, f) {
+                return;
+            }
+            if !emit(t, &Bits::zeros(n), Rhs::V(Operand::canon(TID_D, Bits::from_u128(1, n.min(70)))), BinOp::Sub, f) {
+                return;
+            }
+            if !emit(t, &dense_value(n), Rhs::V(Operand::canon(TID_A, dense_value(n / 2 + 1))), ARITH[n % 3], f) {
+                return;
+            }
+        }
         // (iii-c) thousands of bits: the unbounded types (and the 2560-bit fixed type) against
         // operands of several types and lengths
         for lt in [TID_D, TID_A, 18u8] {
